@@ -422,9 +422,19 @@ func (c *capture) GoString() string { return "capture{}" }
 func (c *capture) Parse(ctx *parseContext, parent reflect.Value) (out []reflect.Value, err error) {
 	defer ctx.printTrace(c)()
 	start := ctx.RawCursor()
+	outer := ctx.firstMatch
+	ctx.firstMatch = -1
 	v, err := c.node.Parse(ctx, parent)
 	if v != nil {
-		ctx.Defer(ctx.Range(start, ctx.RawCursor()), parent, c.field, v)
+		// The captured run starts at the first token the capture matched, not at elided tokens skipped before it.
+		from := start
+		if first := ctx.firstMatch; first >= start && first <= ctx.RawCursor() {
+			from = first
+		}
+		ctx.Defer(ctx.Range(from, ctx.RawCursor()), parent, c.field, v)
+	}
+	if outer >= 0 {
+		ctx.firstMatch = outer
 	}
 	if err != nil {
 		return []reflect.Value{parent}, err
@@ -452,6 +462,7 @@ func (r *reference) Parse(ctx *parseContext, parent reflect.Value) (out []reflec
 	if token.Type != r.typ {
 		return nil, nil
 	}
+	ctx.matched(cursor)
 	ctx.FastForward(cursor)
 	return []reflect.Value{reflect.ValueOf(token.Value)}, nil
 }
@@ -479,6 +490,7 @@ func (l *literal) Parse(ctx *parseContext, parent reflect.Value) (out []reflect.
 	}
 	token, cursor := ctx.PeekAny(match)
 	if match(token) {
+		ctx.matched(cursor)
 		ctx.FastForward(cursor)
 		return []reflect.Value{reflect.ValueOf(token.Value)}, nil
 	}
@@ -510,6 +522,8 @@ func (n *negation) Parse(ctx *parseContext, parent reflect.Value) (out []reflect
 	}
 
 	// Just give the next token
+	_, cursor := ctx.PeekAny(func(lexer.Token) bool { return false })
+	ctx.matched(cursor)
 	next := ctx.Next()
 	return []reflect.Value{reflect.ValueOf(next.Value)}, nil
 }
